@@ -190,4 +190,33 @@ def stepLine (_ : Unit) (line : String) : Unit × String :=
     | _ => none
   ((), r.getD "bad-op")
 
-def main : IO Unit := run () stepLine
+/-! Round 3b: the ops of C13 are stateless (`stepLine` has no state), and the exact-rational software binary64 makes
+one `pf` op cost 1-4 ms: the lines are evaluated by `WORKERS` tasks (line i by task i mod WORKERS, so that the
+expensive op kinds are spread evenly) and printed in the order read.  A short input (a replay) is evaluated
+sequentially.  The function applied to a line is `stepLine` in both cases. -/
+def WORKERS : Nat := 8
+
+partial def readAll (h : IO.FS.Stream) (acc : Array String) : IO (Array String) := do
+  let line ← h.getLine
+  if line.isEmpty then return acc else readAll h (acc.push line)
+
+def workerOf (lines : Array String) (w : Nat) : Array String := Id.run do
+  let mut out : Array String := Array.mkEmpty (lines.size / WORKERS + 1)
+  let mut j := w
+  while j < lines.size do
+    out := out.push (stepLine () lines[j]!).2
+    j := j + WORKERS
+  return out
+
+def main : IO Unit := do
+  let i ← IO.getStdin
+  let o ← IO.getStdout
+  let lines ← readAll i #[]
+  if lines.size < 64 then
+    for l in lines do o.putStrLn (stepLine () l).2
+  else
+    let tasks := (List.range WORKERS).map fun w => Task.spawn fun _ => workerOf lines w
+    let res : Array (Array String) := (tasks.map Task.get).toArray
+    for k in [0:lines.size] do
+      o.putStrLn ((res[k % WORKERS]!)[k / WORKERS]!)
+  o.flush
